@@ -316,6 +316,13 @@ def gen_targeted(rng, count=60):
                     dev('sink', [4], cyc=rng.choice([0, 2]))]
             cfg = dict(devs=devs, horizon=H + 16)
             fam = 'rework-loop'
+        elif kind == 5 and i % 16 == 5:   # a source that starts with no parts and is replenished later
+            devs = [src(rng.choice([1, 2]), 0, pval=1), dev(rng.choice(['handler', 'processor', 'buffer']), [1], cyc=rng.choice([1, 2]), cap=2),
+                    dev('sink', [2], cyc=0)]
+            script = [dict(t=rng.choice([3, 5]), call='adjust', dev=1, arg=rng.choice([1, 2, 3])),
+                      dict(t=rng.choice([9, 12]), call='adjust', dev=1, arg=rng.choice([-1, 1, 2]))]
+            cfg = dict(devs=devs, script=script, horizon=H)
+            fam = 'empty-source'
         else:                # a blocked machine that goes down with a finished part while downstream frees up
             devs = [src(1, rng.choice([3, 5, -1]), pval=1), dev('processor', [1], cyc=rng.choice([1, 2])),
                     dev('processor', [2], cyc=rng.choice([6, 8, 10])), dev('sink', [3], cyc=0)]
@@ -336,7 +343,7 @@ def gen_batch(rng, count=60):
     while len(out) < count:
         bsrc = rng.choice([-1, -1, 1, 2, 3, 3, 0])
         devs = [src(rng.choice([1, 2, 3]), rng.choice([4, 6, 9, -1]), pval=rng.choice([0, 1, 2]), bsrc=bsrc)]
-        shape = rng.choice(['b', 'bb', 'buf-b', 'b-buf-b', 'b-proc-b', 'buf-b-buf'])
+        shape = rng.choice(['b', 'bb', 'buf-b', 'b-buf-b', 'b-proc-b', 'buf-b-buf', 'b-jun-slow', 'b-jun-slow'])
         biggest = max(bsrc, 1)
         for tok in shape.split('-'):
             up = [len(devs)]
@@ -356,6 +363,10 @@ def gen_batch(rng, count=60):
                 devs.append(dev('buffer', up, cap=cap, delay=rng.choice([0, 0, 1, 2])))
             elif tok == 'proc':
                 devs.append(dev('processor', up, cyc=rng.choice([1, 2, 3]), vadd=rng.choice([0, 1])))
+            elif tok == 'jun':
+                devs.append(dev(rng.choice(['junction', 'gate']), up))
+            elif tok == 'slow':
+                devs.append(dev('processor', up, cyc=rng.choice([5, 7, 9])))
         if bsrc == 0 and devs[1]['kind'] != 'batcher':
             continue
         devs.append(dev('sink', [len(devs)], cyc=rng.choice([0, 0, 1, 3])))
